@@ -158,13 +158,15 @@ Print Assumptions C20_starting_offset_after_blank.
 
 (* STARTING OFFSET, one-level dotted prefixes [v.w|] (PARTIAL: longer chains, calls and subscripts as receivers
    are covered by the correspondence and the oracle only).  If the text before the cursor is a word v that is not
-   a keyword and is not the word "from", a dot, and a possibly empty word w - ANY word, also one spelled like a
+   a keyword, does not begin with a digit (the dot of `3.` belongs to the number: repo commit 06a46a8) and is not the
+   word "from", a dot, and a possibly empty word w - ANY word, also one spelled like a
    keyword, since repo commit 2b4039e -, and v is preceded as in C20_starting_offset_partial, then the expression
    to complete is exactly v - what precedes the dot -, the text to be replaced is exactly w and starts right
    after the dot. *)
 Theorem C20_starting_offset_dotted_partial :
   forall (kws : list text) (pre v w post raw : text),
     v <> [] -> forallb is_id_char v = true -> is_kw kws v = false ->
+    oc_is is_digit (hd_error v) = false ->
     forallb is_id_char w = true ->
     ends_from (rev v ++ rev pre) = false ->
     word_boundary_before (rev pre) (last (pre ++ v ++ ch_dot :: w ++ post) 0%N) = true ->
